@@ -43,10 +43,38 @@ func deliverBusy(sock *fakesock.Sock, waitMs int, control uint16) {
 	raw := refenc.RoutingBusy(0, uint16(waitMs), control)
 	var svc knxnet.Service
 	if _, err := knxnet.Unpack(raw, &svc); err != nil {
-		mc.Log(Note("busy indication rejected by the decoder: " + err.Error()))
+		mc.Log(IndicationRejected{"busy", waitMs, err.Error()})
 		return
 	}
 	sock.Deliver(svc)
+}
+
+// IndicationRejected is logged when the library's decoder turns down a well-formed routing-busy or
+// routing-lost indication (6-octet structure built by the reference encoder): the client never sees
+// it, so it neither backs off nor repeats anything. Every 16-bit wait time / lost count is a legal
+// wire value; the oracles judge the ones inside the properties' quantified ranges.
+type IndicationRejected struct {
+	Kind  string
+	Value int
+	Err   string
+}
+
+func (r IndicationRejected) String() string {
+	return fmt.Sprintf("INDICATION-REJECTED %s %d: %s", r.Kind, r.Value, r.Err)
+}
+
+// rejectedIndications: violations for well-formed indications the decoder dropped.
+func rejectedIndications(tr *mc.Trace, prop string) []h.Violation {
+	var vs []h.Violation
+	for _, e := range tr.Log {
+		if x, ok := e.V.(IndicationRejected); ok {
+			if x.Kind == "busy" && x.Value > 500 {
+				continue // beyond the quantified 0..500 ms
+			}
+			vs = append(vs, h.Violation{Class: prop + ":well-formed-" + x.Kind + "-indication-dropped", Msg: fmt.Sprintf("a well-formed routing-%s indication with value %d was rejected by the library's decoder (%s): it never reaches the client", x.Kind, x.Value, x.Err)})
+		}
+	}
+	return vs
 }
 
 // deliverLost: a lost indication as wire octets through the library's decoder (see deliverBusy).
@@ -54,7 +82,7 @@ func deliverLost(sock *fakesock.Sock, count int) {
 	raw := refenc.RoutingLost(0, uint16(count))
 	var svc knxnet.Service
 	if _, err := knxnet.Unpack(raw, &svc); err != nil {
-		mc.Log(Note("lost indication rejected by the decoder: " + err.Error()))
+		mc.Log(IndicationRejected{"lost", count, err.Error()})
 		return
 	}
 	sock.Deliver(svc)
